@@ -141,3 +141,29 @@ func valueMatters(kind string) bool {
 	}
 	return false
 }
+
+// extentOnlyDiff reports whether the implementation's token stream has the grammar's
+// tokens (same count, kinds, values, same success/failure) but places some token at
+// different character offsets. That is a position defect (C04), not a tokenisation one.
+func extentOnlyDiff(im implLex, m reflex.Result) (key, detail string, ok bool) {
+	if len(im.Toks) != len(m.Tokens) || im.Failed != (m.FailAt >= 0) {
+		return "", "", false
+	}
+	for i := range im.Toks {
+		a, b := im.Toks[i], m.Tokens[i]
+		if a.Kind != b.Kind || (valueMatters(a.Kind) && a.Value != b.Value) {
+			return "", "", false
+		}
+	}
+	for i := range im.Toks {
+		a, b := im.Toks[i], m.Tokens[i]
+		if a.Start != b.Start || a.End != b.End {
+			what := "start"
+			if a.Start == b.Start {
+				what = "end"
+			}
+			return "pos/token " + a.Kind + " offset-" + what, fmt.Sprintf("token %d (%s): offsets [%d,%d), the source has it at [%d,%d)", i, a.Kind, a.Start, a.End, b.Start, b.End), true
+		}
+	}
+	return "", "", false
+}
